@@ -248,6 +248,45 @@ def check_sum(case):
                            'basis': case['basis'], 'big_endian': be}}
 
 
+# ---------------------------------------------------------------------------
+# finite sweep over the operand count of the generators (sums and documented size, every n up to 40 and some beyond)
+
+
+def width_configs(tier):
+    ns = list(range(1, 41)) + [48, 63, 64, 65] + ([] if tier == 'quick' else [96, 100, 127, 128, 129, 200, 257])
+    cfg = []
+    for n in ns:
+        for k, kind in enumerate(('gen_sum_n_bits', 'gen_weighted_eff', 'gen_weighted_naive')):
+            for b, basis in enumerate((('XAIG', 'enum'), ('AIG', 'enum'))):
+                case = {'kind': kind, 'n': n, 'basis': list(basis), 'big_endian': (n + k + b) % 2 == 1,
+                        'uuid_seed': 3 * n + k + 1, 'row_seed': n}
+                if 'weighted' in kind:
+                    case['weights'] = [0] * n if (n + b) % 2 else [(i * 7 + n) % 3 for i in range(n)]
+                cfg.append(case)
+    return cfg
+
+
+def width_sweep(tier, shard, nshards, seed):
+    done = nt = 0
+    sample = None
+    for idx, case in enumerate(width_configs(tier)):
+        if idx % nshards != shard:
+            continue
+        case = dict(case, row_seed=case['row_seed'] + seed)
+        try:
+            r = check_sum(case)
+        except Violation as v:
+            v.case = case
+            raise
+        except BaseException as e:  # noqa
+            e.case = case
+            raise
+        done += 1
+        nt += 1 if r['nt'] else 0
+        sample = r['sample']
+    return {'evaluations': done, 'distinct_nontrivial': nt, 'exhaustive': False, 'samples': [sample] if sample else []}
+
+
 SPEC = {
     'id': 'C07',
     'rule': ('Hypothesis cases over 10 entry points (generate_sum_n_bits, generate_sum_weighted_bits_efficient/naive, '
@@ -260,9 +299,11 @@ SPEC = {
              'corner rows): sum(out*2^level) == sum(in*2^weight), distinct levels, a + b*2^shift, returned labels exist; '
              'host discipline (old gates structurally and functionally unchanged, interface unchanged), no XOR/NXOR among '
              'fresh gates under AIG, documented gate-count bounds. Non-trivial: n>=3 with a carry across levels.'
-             ' Added during the build: lopsided and long operand lists, live lists / one object for both numbers / tuples / iterators, all weights shifted beyond 256 as separate int objects, generators asked twice with the first result changed in between, hosts holding the labels about to be generated, a refused call (absent label, on a host of its own) before the ordinary one, constant-zero runs inside operands.'),
+             ' Added during the build: lopsided and long operand lists, live lists / one object for both numbers / tuples / iterators, all weights shifted beyond 256 as separate int objects, generators asked twice with the first result changed in between, hosts holding the labels about to be generated, a refused call (absent label, on a host of its own) before the ordinary one, constant-zero runs inside operands, and a finite sweep of the three generators over every operand count up to 40 and some up to 65 (257).'),
     'assumptions': ['reference tables from vlib/refsem.py; uuid4 replaced by a seeded stream'],
     'subs': [Sub('sum', cases, arith.with_refused_prelude(arith.with_label_collisions(check_sum)), {'quick': 1600, 'thorough': 125000})],
+    'sharded': {'width_sweep': width_sweep},
+    'replay': {'width_sweep': check_sum},
     'required_classes': {'sum': KINDS + ['basis:AIG/str', 'basis:AIG/enum', 'basis:XAIG/str', 'internal_operands',
                                          'repeated_operands', 'shift_vs_len:gt', 'shift_vs_len:eq', 'be', 'le',
                                          'alias:live_list', 'alias:same_object', 'weights>256']},
